@@ -113,6 +113,67 @@ def tree_case(case):
     return {"ok": True, "nt": nt, "ops": max(k, 1), "key": jdump(case["trees"][:1]) + str(len(case["trees"])), "extra": {"distinct_expressions": k, "skipped_nonfinite": skipped}, "out": "ok"}
 
 
+BIG = {"2^53+1": sympy.Integer(2 ** 53 + 1), "2^64+1": sympy.Integer(2 ** 64 + 1), "-(10^20+7)": -sympy.Integer(10 ** 20 + 7), "(2^64+1)/3": sympy.Rational(2 ** 64 + 1, 3), "1/(2^61-1)": sympy.Rational(1, 2 ** 61 - 1),
+       "10^30": sympy.Integer(10) ** 30, "(10^18+1)/(10^18+3)": sympy.Rational(10 ** 18 + 1, 10 ** 18 + 3), "2^31": sympy.Integer(2 ** 31), "-2^63": -sympy.Integer(2 ** 63), "123456789012345678": sympy.Integer(123456789012345678)}
+
+
+def exact_case(case):
+    """{'big': name, 'ctx': k}: integers beyond 2^53 (where a float no longer tells neighbours apart): the translated expression is EXACTLY the original; rationals with such
+    numerators / denominators: equal by value to float precision"""
+    b = BIG[case["big"]]
+    e = [lambda: b, lambda: b + X, lambda: X * b, lambda: X ** 2 / b + Y, lambda: sympy.cos(b * X), lambda: (X + b) * (Y - b), lambda: b - X, lambda: sympy.Pow(X, b, evaluate=False) if b.is_Integer and abs(b) < 2 ** 40 else b * Y - 1,
+         lambda: sympy.Add(b, 1, evaluate=False), lambda: X / b][case["ctx"]]()
+    try:
+        r = sympy.sympify(roundtrip(e))
+    except Exception as ex:  # noqa: BLE001
+        return {"ok": False, "msg": "expression %s of the supported grammar is not translated: %s: %s" % (e, type(ex).__name__, str(ex)[:120]), "sig": "exact:refused"}
+    if not b.is_Integer:
+        # a rational is handed on as the nearest float by design ("evaluates to the same number" to float precision): compared by value; the context cos(b*x)
+        # with b ~ 1e18 amplifies that last-digit rounding to O(1) and is not judged
+        if case["ctx"] == 4 and abs(b) > 1e6:
+            return {"ok": True, "skip": True}
+        for a in ASSIGN[:2]:
+            v, w = complex(sympy.N(e.subs(a), 40)), complex(sympy.N(r.subs(a), 40))
+            if abs(v - w) > 1e-12 * max(1.0, abs(v)):
+                return {"ok": False, "msg": "translation of %s evaluates to another number at %s" % (e, {str(k_): x for k_, x in a.items()}), "expected": str(v), "observed": "%s -> %s" % (r, w), "sig": "exact:rational-value"}
+        return {"ok": True, "nt": True, "out": "rational"}
+    diff = sympy.expand(r - e)
+    ok = diff == 0
+    if not ok and not diff.free_symbols and not diff.atoms(sympy.Float):
+        ok = sympy.simplify(diff) == 0
+    if not ok:
+        return {"ok": False, "msg": "translation of %s is not exactly the same expression (difference %s)" % (e, diff), "expected": str(e), "observed": str(r), "sig": "exact:value"}
+    return {"ok": True, "nt": True, "out": "exact"}
+
+
+def refusal_history_case(case):
+    """{'rounds': n, 'step': k}: one process; n refused translations (unsupported constructs at the root, below the root, deep inside) interleaved with translations of supported
+    expressions: a refusal leaves nothing behind - every supported expression is still translated, with the same value"""
+    ctx = [lambda u: u, lambda u: ["add", u, "x"], lambda u: ["cos", ["mul", "2", u]], lambda u: ["div", "1", ["add", "y", ["pow", u, "2"]]], lambda u: ["sqrt", ["sub", "y", ["sin", u]]]]
+    good = [["add", "x", "y"], ["cos", ["add", "x", "1"]], ["div", "x", ["mul", "y", "2"]], ["pow", ["add", "x", "2"], "y"], ["exp", ["mul", "I", "x"]], ["sqrt", ["add", ["mul", "x", "x"], "1"]]]
+    names = list(UNSUPPORTED)
+    k = refused = 0
+    for i in range(case["rounds"]):
+        t = ctx[i % len(ctx)](["u:" + names[(i * case["step"]) % len(names)], ["add", "x", "y"] if i % 2 else "x"])
+        try:
+            e = build(t)
+            roundtrip(e)
+        except Exception:  # noqa: BLE001
+            refused += 1
+        g = build(good[i % len(good)])
+        k += 1
+        try:
+            r = roundtrip(g)
+        except Exception as ex:  # noqa: BLE001
+            return {"ok": False, "msg": "after %d refused translations in this process the supported expression %s is refused too: %s: %s" % (refused, g, type(ex).__name__, str(ex)[:120]),
+                    "sig": "refusal-history:refused", "ops": k}
+        for a in ASSIGN[:2]:
+            v, w = value(g, a), value(sympy.sympify(r), a)
+            if v is not None and (w is None or abs(w - v) > 1e-9 * max(1, abs(v))):
+                return {"ok": False, "msg": "after %d refused translations %s translates to %s" % (refused, g, r), "sig": "refusal-history:value", "ops": k}
+    return {"ok": True, "nt": refused > case["rounds"] // 2, "ops": k, "out": "rounds%d" % case["rounds"], "extra": {"refused": refused}}
+
+
 def unsupported_case(case):
     """{'tree': descriptor containing one 'u:<name>' node}: must be refused, or come back value-equal (never as something else)"""
     t = case["tree"]
@@ -242,7 +303,7 @@ def dialect_history_case(case):
     return {"ok": True, "nt": True, "out": "same"}
 
 
-FUNCS = {"dialect_history": dialect_history_case, "trees": tree_case, "nary": tree_case, "unsupported": unsupported_case, "natural_keys": keys_case, "natural_keys_literal": literal_case}
+FUNCS = {"exact_numbers": exact_case, "refusal_history": refusal_history_case, "dialect_history": dialect_history_case, "trees": tree_case, "nary": tree_case, "unsupported": unsupported_case, "natural_keys": keys_case, "natural_keys_literal": literal_case}
 
 
 def depth1(atoms):
@@ -309,6 +370,9 @@ def run(run):
     dh = [{"tree": t} for t in [["add", "x", ["mul", "2", "y"]], ["cos", ["add", "x", "1"]], ["pow", "x", "y"], ["div", "x", ["mul", "y", "2"]], ["u:log", "x"], ["add", ["u:log", "x"], "1"],
                                 ["u:Abs", "y"], ["mul", "2", ["u:log", ["add", "x", "2"]]], ["sqrt", ["add", "x", "2"]], ["exp", ["mul", "I", "x"]]]]
     secs.append(Section("dialect_history", dh, dialect_history_case, chunk=len(dh), desc="translate with another dialect first, then with the sympy dialect, in one process"))
+    secs.append(Section("exact_numbers", [{"big": b, "ctx": c} for b in BIG for c in range(10)], exact_case, horizon=120, desc="integers and rationals beyond 2^53 in 10 contexts: the round trip is exact, not float-close"))
+    secs.append(Section("refusal_history", [{"rounds": r, "step": st} for r, st in ((600, 1), (2500 if thorough else 1200, 5))], refusal_history_case, horizon=900, chunk=1,
+                        desc="600 / 1200 (thorough 2500) refused translations interleaved with supported ones in one process: refusals leave nothing behind"))
     alpha = "ab_0129"
     Ln = 5 if thorough else 4
     names = ["".join(p) for k in range(1, Ln + 1) for p in itertools.product(alpha, repeat=k)]
